@@ -5,7 +5,8 @@
    model Resolve/SchemaResolve.v, in which every slicing of a line (tl[i+8:], tl[:i], tl[i+2:],
    requirement[1:], requirement[1:i], requirement[:i], requirement[i+1:], s[len(p):]) and every
    indexing of the slices nodes and sources (sources[r.depth] = nodes[i], sources[r.depth-1],
-   nodes[s.labels[r.label]]) and of the node slice inside AddError is a checked access with a Panic
+   nodes[s.labels[r.label]]), of s.rows[i-1] in the validation loop and of the node slice inside
+   AddError is a checked access with a Panic
    outcome, the results of strings.Index are integers that can be -1, and the recursion of
    replaceArt has explicit fuel.
 
